@@ -5,8 +5,9 @@ Open Scope N_scope.
 Definition othread := ((N * N) * (N * N) * bool * thread_json * list stack_key * list (N * option nat) * list (option nat))%type.
    (* pid string, tid string, isMainThread, tables, stack table, samples (time, stack), marker stacks *)
 
-(* observed per-thread tables: stringArray (content ids), resourceTable.lib / name, funcTable.name / resource, frameTable.func / address *)
-Definition otables := (list N * list nat * list nat * list nat * list (option nat) * list nat * list (option N))%type.
+(* observed per-thread tables: stringArray (content ids), resourceTable.lib / name, funcTable.name / resource, frameTable.func / address / nativeSymbol,
+   nativeSymbols.libIndex / address / name *)
+Definition otables := (list N * list nat * list nat * list nat * list (option nat) * list nat * list (option N) * list (option nat) * list nat * list N * list nat)%type.
 
 Record c03case := mkCase {
   cp_procs : list (N * N);                                   (* pid, start *)
@@ -41,19 +42,22 @@ Fixpoint listoN_eqb (a b : list (option N)) : bool :=
 
 (* GlobalLibTable::index_for_used_lib: libraries are numbered in the order of their first use by any thread *)
 Definition used_libs (reqs : list (nat * freq)) : list nat :=
-  fold_left (fun u r => match snd r with FNative lib _ _ _ => snd (intern Nat.eqb u lib) | _ => u end) reqs [].
+  fold_left (fun u r => match snd r with FNative lib _ _ _ => snd (intern Nat.eqb u lib) | FNativeSym lib _ _ _ _ => snd (intern Nat.eqb u lib) | _ => u end) reqs [].
 Definition translate (used : list nat) (r : freq) : freq :=
   match r with
   | FNative lib rel h n => FNative (match index_of Nat.eqb lib used with Some i => i | None => 0%nat end) rel h n
+  | FNativeSym lib rel a sn n => FNativeSym (match index_of Nat.eqb lib used with Some i => i | None => 0%nat end) rel a sn n
   | x => x
   end.
 Definition model_tables (reqs : list (nat * freq)) (h : nat) : otables :=
   let used := used_libs reqs in
   let t := run_reqs (map (fun r => translate used (snd r)) (filter (fun r => Nat.eqb (fst r) h) reqs)) in
-  (tt_strings t, tt_res_lib t, tt_res_name t, map fst (tt_funcs t), tt_func_res t, tt_frame_func t, map (fun k => option_map snd (snd k)) (tt_frames t)).
+  (tt_strings t, tt_res_lib t, tt_res_name t, map fst (tt_funcs t), tt_func_res t, tt_frame_func t, map (fun k => option_map (fun x => snd (fst x)) (snd k)) (tt_frames t),
+   map (fun k => match snd k with Some (_, _, ns) => ns | None => None end) (tt_frames t), map fst (tt_ns t), map snd (tt_ns t), tt_ns_name t).
 Definition otables_eqb (a b : otables) : bool :=
-  let '(s1, rl1, rn1, fn1, fr1, ff1, fa1) := a in let '(s2, rl2, rn2, fn2, fr2, ff2, fa2) := b in
-  listN_eqb s1 s2 && listnat_eqb rl1 rl2 && listnat_eqb rn1 rn2 && listnat_eqb fn1 fn2 && liston_eqb fr1 fr2 && listnat_eqb ff1 ff2 && listoN_eqb fa1 fa2.
+  let '(s1, rl1, rn1, fn1, fr1, ff1, fa1, fs1, nl1, na1, nn1) := a in let '(s2, rl2, rn2, fn2, fr2, ff2, fa2, fs2, nl2, na2, nn2) := b in
+  listN_eqb s1 s2 && listnat_eqb rl1 rl2 && listnat_eqb rn1 rn2 && listnat_eqb fn1 fn2 && liston_eqb fr1 fr2 && listnat_eqb ff1 ff2 && listoN_eqb fa1 fa2 &&
+  liston_eqb fs1 fs2 && listnat_eqb nl1 nl2 && listN_eqb na1 na2 && listnat_eqb nn1 nn2.
 
 Definition id_eqb (a b : N * N) : bool := (fst a =? fst b) && (snd a =? snd b).
 Definition ot_pid (o : othread) := let '(p, _, _, _, _, _, _) := o in p.
